@@ -499,11 +499,10 @@ def gen_settings_tables(read):
     # ---- _build_self: the settings block between the Built test and self._propagate()
     b = norm(fn_body(csrc, r"pub\(crate\)\s+fn\s+_build_self\s*\(\s*&mut\s+self\s*,\s*expand_help_tree\s*:\s*bool\s*\)", "Command::_build_self"))
     bm = re.search(r"if !self\.settings\.is_set\(AppSettings::Built\) \{ (?:if let Some\(deferred\) = self\.deferred\.take\(\) \{ [^}]* \} )?"
-                   r"self\.(\w+) = self\.(\w+) \| self\.(\w+); (.*?) self\._propagate\(\); self\._check_help_and_version\(expand_help_tree\); "
-                   r"self\._propagate_global_args\(\);", b)
+                   r"self\.(\w+) = self\.(\w+) \| self\.(\w+); ((?:if [^{}]* \{ (?:self\.settings\.set\(AppSettings::\w+\); )+\} ?)*)", b)
     if not bm:
-        die("Command::_build_self no longer starts with `settings = settings | g_settings; <conditional sets>; _propagate(); "
-            "_check_help_and_version(..); _propagate_global_args();`: " + b[:400])
+        die("Command::_build_self no longer starts with `settings = settings | g_settings; <conditional sets>` (the order of the later "
+            "steps is read by gen_build_tables): " + b[:400])
     merge = (bm.group(1), bm.group(2), bm.group(3))
     sets = []
     rest = bm.group(4).strip()
@@ -751,15 +750,82 @@ def gen_build_tables(read):
             die("harness/src/modes/parse.rs: flag arm with an unexpected shape: " + line)
         harness_flags.append((am.group(1), am.group(2)))
 
+    # ---- Command::_build_self: the order of its steps, the argument loop, the deprecated command-level settings
+    bsb = norm(fn_body(csrc, r"pub\(crate\)\s+fn\s+_build_self\s*\(\s*&mut\s+self\s*,\s*expand_help_tree\s*:\s*bool\s*\)", "Command::_build_self"))
+    bsb = re.sub(r'debug!\((?:[^()"]|"(?:[^"\\]|\\.)*"|\([^()]*\))*\); ?', "", bsb)
+    def tile(text, segs, what):
+        """each (name, regex) must match `text` exactly once; the matches must tile `text` without gaps; returns the names
+        in source order and the match objects"""
+        found = []
+        for name, rx in segs:
+            ms = list(re.finditer(rx, text))
+            if len(ms) != 1:
+                die("%s: expected exactly one `%s` part, found %d" % (what, name, len(ms)))
+            found.append((ms[0].start(), ms[0].end(), name, ms[0]))
+        found.sort()
+        pos = 0
+        for st, en, name, _ in found:
+            if text[pos:st].strip():
+                die("%s: code the translator does not know before the `%s` part: %r" % (what, name, text[pos:st].strip()[:160]))
+            if st < pos:
+                die("%s: the parts `%s` overlap" % (what, name))
+            pos = en
+        if text[pos:].strip():
+            die("%s: code the translator does not know at the end: %r" % (what, text[pos:].strip()[:160]))
+        return [f[2] for f in found], {f[2]: f[3] for f in found}
+
+    hm3 = re.fullmatch(r"if !self\.settings\.is_set\(AppSettings::Built\) \{ (?:if let Some\(deferred\) = self\.deferred\.take\(\) \{ [^}]* \} )?(.*) \} else \{ \}", bsb)
+    if not hm3:
+        die("Command::_build_self is no longer `if !self.settings.is_set(AppSettings::Built) { .. } else { }`: " + bsb[:200])
+    steps, sm3 = tile(hm3.group(1), [
+        ("settings_block", r"self\.settings = self\.settings \| self\.g_settings; (?:if [^{}]* \{ (?:self\.settings\.set\(AppSettings::\w+\); )+\} ?)+"),
+        ("_propagate", r"self\._propagate\(\); ?"),
+        ("_check_help_and_version", r"self\._check_help_and_version\(expand_help_tree\); ?"),
+        ("_propagate_global_args", r"self\._propagate_global_args\(\); ?"),
+        ("args_loop", r"let mut pos_counter = (?P<pos0>\d+); let hide_pv = self\.is_set\(AppSettings::HidePossibleValues\); "
+                      r"for a in self\.args\.args_mut\(\) \{ (?P<loop>.*?) \} (?=self\.args\._build)"),
+        ("args._build", r"self\.args\._build\(\); ?"),
+        ("deprecated_block", r"#\[allow\(deprecated\)\] \{ let highest_idx = self \.get_keymap\(\) \.keys\(\) \.filter_map\(\|x\| \{ if let crate::mkeymap::KeyType::Position\(n\) = x \{ Some\(\*n\) \} else \{ None \} \}\) "
+                             r"\.max\(\) \.unwrap_or\((?P<hi0>\d+)\); (?P<lets>(?:let \w+ = self\.\w+\(\); )+)"
+                             r"for arg in self\.args\.args_mut\(\) \{ (?P<rules>(?:if \w+ && [^{}]* \{ arg\.settings\.set\(ArgSettings::\w+\); \} )+)\} \} ?"),
+        ("assert_app", r"#\[cfg\(debug_assertions\)\] assert_app\(self\); ?"),
+        ("set_built", r"self\.settings\.set\(AppSettings::Built\); ?"),
+    ], "Command::_build_self")
+    loop_steps, _ = tile(sm3["args_loop"].group("loop"), [
+        ("groups", r"for g in &a\.groups \{ if let Some\(ag\) = self\.groups\.iter_mut\(\)\.find\(\|grp\| grp\.id == \*g\) \{ ag\.args\.push\(a\.get_id\(\)\.clone\(\)\); \} "
+                   r"else \{ let mut ag = ArgGroup::new\(g\); ag\.args\.push\(a\.get_id\(\)\.clone\(\)\); self\.groups\.push\(ag\); \} \} ?"),
+        ("_build", r"a\._build\(\); ?"),
+        ("hide_possible_values", r"if hide_pv && a\.is_takes_value_set\(\) \{ a\.settings\.set\(ArgSettings::HidePossibleValues\); \} ?"),
+        ("index", r"if a\.is_positional\(\) && a\.index\.is_none\(\) \{ a\.index = Some\(pos_counter\); pos_counter \+= 1; \} ?"),
+    ], "Command::_build_self, loop over the arguments")
+
+    class _G:   # the two matches the code below reads
+        def group(self, k):
+            return sm3["args_loop"].group(k) if k == "pos0" else sm3["deprecated_block"].group(k)
+    bm2 = _G()
+    lets = dict(re.findall(r"let (\w+) = self\.(\w+)\(\); ", bm2.group("lets")))
+    dep_rules = []
+    for v, cond, setv in re.findall(r"if (\w+) && ([^{}]*) \{ arg\.settings\.set\(ArgSettings::(\w+)\); \} ", bm2.group("rules")):
+        if v not in lets:
+            die("Command::_build_self deprecated block: unknown local " + v)
+        getter = lets[v]
+        gb2 = norm(fn_body(csrc, r"pub(?:\(crate\))?\s+fn\s+%s\s*\(\s*&self\s*\)\s*->\s*bool" % getter, "Command::" + getter))
+        gm2 = re.fullmatch(r"self\.is_set\(AppSettings::(\w+)\)", gb2)
+        if not gm2:
+            die("Command::%s is no longer `self.is_set(AppSettings::V)`: %s" % (getter, gb2))
+        if setv not in avariants:
+            die("Command::_build_self sets an unknown ArgSettings::" + setv)
+        dep_rules.append((gm2.group(1), cond.strip(), setv))
+
     def row(i, s, l, a):
         return "(%s, %s, %s, %s)" % (cstr(ids[i]), cstr(s), cstr(l), cstr(a))
 
     def pairs(l):
         return clist(["(%s, %s)" % (cstr(a_), cstr(b_)) for a_, b_ in l])
     lines = [
-        "(* GENERATED by translators/builder_tables.py from Command::_check_help_and_version (clap_builder/src/builder/command.rs),",
-        "   util/id.rs and range.rs -- do not edit. *)",
-        "From Coq Require Import List String.",
+        "(* GENERATED by translators/builder_tables.py from Command::{_check_help_and_version, _build_self} (clap_builder/src/builder/command.rs),",
+        "   util/id.rs, range.rs, mkeymap.rs, arg.rs, arg_settings.rs and the two spec readers of this framework -- do not edit. *)",
+        "From Coq Require Import List String NArith.",
         "Import ListNotations.",
         "Open Scope string_scope.",
         "",
@@ -790,6 +856,16 @@ def gen_build_tables(read):
         "    harness/src/modes/parse.rs (flag name, Arg method called with `true`) *)",
         "Definition gen_spec_arg_flags : list (string * string) := " + pairs(spec_flags) + ".",
         "Definition gen_harness_arg_flags : list (string * string) := " + pairs(harness_flags) + ".",
+        "",
+        "(** Command::_build_self (when not yet Built): the steps in source order; the loop over the arguments in source order;",
+        "    the first positional index handed out; `highest_idx` when there is no positional;",
+        "    the deprecated command-level settings: (AppSettings variant read on the command, condition on the argument, ArgSettings variant set) *)",
+        "Definition gen_build_self_steps : list string := [" + "; ".join(cstr(x) for x in steps) + "].",
+        "Definition gen_args_loop_steps : list string := [" + "; ".join(cstr(x) for x in loop_steps) + "].",
+        "Definition gen_pos_counter_start : N := %s%%N." % bm2.group("pos0"),
+        "Definition gen_highest_idx_default : N := %s%%N." % bm2.group("hi0"),
+        "Definition gen_deprecated_rules : list (string * string * string) := "
+        + clist(["(%s, %s, %s)" % (cstr(a_), cstr(b_), cstr(c_)) for a_, b_, c_ in dep_rules]) + ".",
         "",
     ]
     return "BuildTables.v", "\n".join(lines)
